@@ -88,8 +88,16 @@ func (g *Gen) coef() *big.Int {
 	return c
 }
 
+// layoutExps are exponents of the leading digit at which a rendering changes
+// shape: the %v/%g and JSON switch-over points and the places where the
+// printed exponent gains a digit.
+var layoutExps = []int{-1001, -1000, -999, -101, -100, -99, -11, -10, -9, -7, -6, -5, -4, -1, 0, 1, 5, 6, 9, 10, 19, 20, 21, 99, 100, 101, 999, 1000, 1001}
+
 func (g *Gen) exp(c *big.Int) int {
 	nd := ref.NumDigits(c)
+	if g.R.P(1, 9) {
+		return layoutExps[g.R.N(len(layoutExps))] - nd + 1
+	}
 	switch g.R.N(10) {
 	case 0:
 		return ref.MinExp + g.R.N(45)
@@ -340,6 +348,17 @@ func (g *Gen) InvalidLiteral(scanAlphabetOnly bool) string {
 			v := g.ValidLiteral(true, true)
 			i := g.R.N(len(v))
 			s = v[:i+1] + v[i:]
+			if g.R.P(1, 2) && !scanAlphabetOnly {
+				// replace one byte, preferably by a neighbour of the digits in
+				// the character set or by something a table lookup or a bit trick
+				// might mistake for a digit
+				i = g.R.N(len(v))
+				c := []byte{'/', ':', ';', '<', '=', '>', '?', '@', 'a', 'f', 'x', ',', 0xb0, 0xb9, 0x10, 0x19, ' ', 0}[g.R.N(18)]
+				if g.R.P(1, 4) {
+					c = byte(g.R.N(256))
+				}
+				s = v[:i] + string([]byte{c}) + v[i+1:]
+			}
 		}
 		if scanAlphabetOnly && (!scanAlphabet(s) || strings.ContainsAny(s, " \n\t\r") || s == "") {
 			continue
